@@ -2231,7 +2231,7 @@ fn main() {
     run.note("known_classes_excluded_by_construction", serde_json::json!({"layout_rules": excl_note, "multibyte_tail_values": ex.mb_tail}));
 
     // 1. tokenizer level, arbitrary names
-    let n = run.scale(120_000, 4_000_000);
+    let n = run.scale(120_000, 3_000_000);
     run.section(
         "tokenizer-layout",
         "ASTs of 1..5 steps with arbitrary names, macro names, indexed keys, flags, value lists (multi-byte atoms included) and modifiers; each rendered twice from independent layout tapes; split_into_steps/split_into_parameters of every rendering must equal the reference map computed from the AST, reported steps are fixed points of normalize, normalize is idempotent on comment-free renderings and agrees with the step list; non-trivial = the two renderings differ in >= 2 layout dimensions",
@@ -2241,7 +2241,7 @@ fn main() {
     );
 
     // 2. context level: steps, parsed parameters, behaviour
-    let n = run.scale(40_000, 1_500_000);
+    let n = run.scale(40_000, 1_000_000);
     run.section(
         "behaviour-layout",
         "ASTs of 1..5 steps over 20 real operators (sound parameter values in every spelling, repeated and unknown keys), built-in and registered macros, modifiers; two independent renderings each compared with the canonical one-line text on fresh contexts: instantiation outcome, ctx.steps (count, per-step parameter maps, also against the AST), ctx.params of every step (Debug-identical), apply forward and inverse on 2 probe tuples (bit-identical, counts); non-trivial = the two renderings differ in >= 2 layout dimensions",
@@ -2262,7 +2262,7 @@ fn main() {
     );
 
     // 4. random typed definitions for the harness operator
-    let n = run.scale(100_000, 3_000_000);
+    let n = run.scale(100_000, 2_500_000);
     run.section(
         "typed-values",
         "definitions of the harness operator (gamut with all seven kinds, required and optional keys, indexed keys that shadow implicit defaults): values in generated spellings (decimal, exponent, d:m:s, hemisphere, signs), listed adversarial texts and random strings over a numeric alphabet; repeated keys, unknown keys, omitted keys, bare keys, subscript keys, five positions; ctx.params compared with the reference parser; non-trivial = some value is not a plain decimal/integer/text",
@@ -2272,7 +2272,7 @@ fn main() {
     );
 
     // 5. built-in gamuts
-    let n = run.scale(50_000, 1_200_000);
+    let n = run.scale(50_000, 1_000_000);
     run.section(
         "builtin-gamuts",
         "17 built-in operators (helmert, axisswap, unitconvert, utm, butm, tmerc, btmerc, merc, laea, cart, molodensky, adapt, permtide, stack, push, pop): parameters from their documented domains in every spelling or surely invalid texts; typed values, defaults of omitted keys and demanded required keys compared with the gamut table transcribed into the harness",
